@@ -432,6 +432,11 @@ func (ir *ifdReader) ParseDate(t Tag) time.Time {
 			hour := parseStrUint(buf[11:13])
 			min := parseStrUint(buf[14:16])
 			sec := parseStrUint(buf[17:19])
+			if month == 0 || day == 0 {
+				// "unknown" (Exif: the digits blank, the colons kept; many
+				// writers: all zeros) is not the 30th of November of the year -1
+				return time.Time{}
+			}
 			return time.Date(int(year), time.Month(month), int(day), int(hour), int(min), int(sec), 0, time.UTC)
 		}
 	}
